@@ -953,7 +953,162 @@ func c09MutatedData(c *C) {
 	c.Nontrivial(fmt.Sprintf("mutated:%d", c.Idx))
 }
 
+// c09SortedNumbers: `sorted` (and `reversed sorted`) over homogeneous numeric / string lists, arrays and map keys of
+// every magnitude: the items come out in numeric (string: byte) order. Distinct values only, so no tie order is assumed.
+func c09SortedNumbers(c *C) {
+	r := c.R
+	kind := r.Intn(6)
+	n := 2 + r.Intn(7)
+	seen := map[string]bool{}
+	var ints []int64
+	var floats []float64
+	var strs []string
+	bases := []int64{0, -3, 100, 1 << 31, 1 << 53, -(1 << 53), 1 << 60, -(1 << 60), 1<<62 + 12345, 1<<63 - 20, -(1 << 62), 1700000000000000000}
+	base := bases[r.Intn(len(bases))]
+	for len(ints) < n {
+		var v int64
+		switch {
+		case r.Chance(70):
+			v = base + int64(r.Intn(12))
+		case r.Chance(50):
+			v = bases[r.Intn(len(bases))] + int64(r.Intn(4))
+		default:
+			v = int64(r.Intn(2000)) - 1000
+		}
+		if kind == 1 && v < 0 {
+			v = -(v + 1)
+		}
+		if kind == 2 {
+			v = v % 100000
+		}
+		if seen[fmt.Sprint(v)] {
+			continue
+		}
+		seen[fmt.Sprint(v)] = true
+		ints = append(ints, v)
+		floats = append(floats, float64(v%1000)+float64(len(ints))/16)
+		strs = append(strs, fmt.Sprintf("%c%d", 'a'+byte(v&7), len(ints)))
+	}
+	var data any
+	var want []string
+	asMap := r.Chance(35)
+	switch kind {
+	case 0, 5:
+		s := append([]int64(nil), ints...)
+		sort.Slice(s, func(i, j int) bool { return s[i] < s[j] })
+		for _, v := range s {
+			want = append(want, fmt.Sprint(v))
+		}
+		if asMap {
+			m := map[int64]bool{}
+			for _, v := range ints {
+				m[v] = true
+			}
+			data = m
+		} else if kind == 5 && len(ints) >= 3 {
+			data = [3]int64{ints[0], ints[1], ints[2]}
+			s3 := []int64{ints[0], ints[1], ints[2]}
+			sort.Slice(s3, func(i, j int) bool { return s3[i] < s3[j] })
+			want = []string{fmt.Sprint(s3[0]), fmt.Sprint(s3[1]), fmt.Sprint(s3[2])}
+		} else {
+			data = ints
+		}
+	case 1:
+		us := make([]uint64, len(ints))
+		for i, v := range ints {
+			us[i] = uint64(v)
+		}
+		s := append([]uint64(nil), us...)
+		sort.Slice(s, func(i, j int) bool { return s[i] < s[j] })
+		for _, v := range s {
+			want = append(want, fmt.Sprint(v))
+		}
+		if asMap {
+			m := map[uint64]int{}
+			for _, v := range us {
+				m[v] = 1
+			}
+			data = m
+		} else {
+			data = us
+		}
+	case 2:
+		is := make([]int, len(ints))
+		for i, v := range ints {
+			is[i] = int(v)
+		}
+		s := append([]int(nil), is...)
+		sort.Ints(s)
+		for _, v := range s {
+			want = append(want, fmt.Sprint(v))
+		}
+		if asMap {
+			m := map[int]string{}
+			for _, v := range is {
+				m[v] = "v"
+			}
+			data = m
+		} else {
+			data = is
+		}
+	case 3:
+		s := append([]float64(nil), floats...)
+		sort.Float64s(s)
+		tplf, _ := pongo2.FromString("{{ f }}")
+		for _, v := range s {
+			o, _ := tplf.Execute(pongo2.Context{"f": v})
+			want = append(want, o)
+		}
+		data = floats
+		asMap = false
+	default:
+		s := append([]string(nil), strs...)
+		sort.Strings(s)
+		want = s
+		if asMap {
+			m := map[string]int{}
+			for _, v := range strs {
+				m[v] = 1
+			}
+			data = m
+		} else {
+			data = strs
+		}
+	}
+	rev := r.Chance(40)
+	src := "{% for x in data " + map[bool]string{false: "", true: "reversed "}[rev] + "sorted %}{{ x }},{% endfor %}"
+	if asMap && r.Chance(50) {
+		src = "{% for x, v in data " + map[bool]string{false: "", true: "reversed "}[rev] + "sorted %}{{ x }},{% endfor %}"
+	}
+	if rev {
+		for i, j := 0, len(want)-1; i < j; i, j = i+1, j-1 {
+			want[i], want[j] = want[j], want[i]
+		}
+	}
+	exp := strings.Join(want, ",") + ","
+	set, _ := newSet(emptySetFiles)
+	tpl, err := set.FromString(src)
+	if err != nil {
+		c.Fail("reference-mismatch", D{"source": src, "compile_err": err.Error()})
+		return
+	}
+	for run := 0; run < 2; run++ {
+		out, xerr := execSpread(tpl, pongo2.Context{"data": data}, uint64(c.Idx+run))
+		c.Eval(1)
+		if xerr != nil || out != exp {
+			c.Fail("reference-mismatch", D{"source": q(src), "data": fmt.Sprintf("%T %v", data, data), "output": q(out), "expected": q(exp), "exec_err": errStr(xerr), "execution": run + 1, "why": "`sorted` renders the items in their numeric (strings: byte) order"})
+			return
+		}
+	}
+	c.Cover(fmt.Sprintf("sorted_numbers_kind_%d_map_%v", kind, asMap))
+	c.Nontrivial("sortednum:" + exp)
+}
+
 func c09Run(c *C) {
+	if c.Idx%50 == 23 {
+		c09SortedNumbers(c)
+		return
+	}
 	if c.Idx%25 == 7 {
 		c09Reentrant(c)
 		return
